@@ -78,4 +78,24 @@ def clientIP (r : Req) : Bytes :=
     | some ip => ip
     | none => r.peer
 
+/-! ## `Context.IsLocalhost` (router/request.go): a function of `ClientIP()` alone -/
+
+def localhostExact : List Bytes :=
+  ["127.0.0.1".toList, "::1".toList, "localhost".toList, "0.0.0.0".toList, "::".toList]
+
+def localhostPrefixes : List Bytes := ["127.".toList, "::1".toList, "0:0:0:0:0:0:0:1".toList]
+
+/-- `strings.HasPrefix` -/
+def hasPrefix : Bytes → Bytes → Bool
+  | _, [] => true
+  | [], _ :: _ => false
+  | a :: s, b :: p => a == b && hasPrefix s p
+
+/-- the switch over the literal table, then the prefix tests -/
+def isLocalhostOf (ip : Bytes) : Bool :=
+  localhostExact.contains ip || localhostPrefixes.any (hasPrefix ip)
+
+/-- `Context.IsLocalhost` -/
+def isLocalhost (r : Req) : Bool := isLocalhostOf (clientIP r)
+
 end Rivaas.RealIP
